@@ -616,7 +616,12 @@ class ServiceClass:
         if not ctx.success or not self.assoc.is_established:
             return
 
-        usr_status, ds = cast(UserReturnType, user_response)
+        try:
+            usr_status, ds = cast(UserReturnType, user_response)
+        except (TypeError, ValueError):
+            # Not a (status, dataset) pair, validate_status() decides what
+            #   the response will be
+            usr_status, ds = cast(Any, user_response), None
 
         # Check Status validity
         # Validate rsp_status and set rsp.Status accordingly
@@ -768,7 +773,12 @@ class ServiceClass:
         if not ctx.success or not self.assoc.is_established:
             return
 
-        usr_status, ds = cast(UserReturnType, user_response)
+        try:
+            usr_status, ds = cast(UserReturnType, user_response)
+        except (TypeError, ValueError):
+            # Not a (status, dataset) pair, validate_status() decides what
+            #   the response will be
+            usr_status, ds = cast(Any, user_response), None
 
         # Check Status validity
         # Validate rsp_status and set rsp.Status accordingly
@@ -1006,7 +1016,12 @@ class ServiceClass:
         if not ctx.success or not self.assoc.is_established:
             return
 
-        usr_status, ds = cast(UserReturnType, user_response)
+        try:
+            usr_status, ds = cast(UserReturnType, user_response)
+        except (TypeError, ValueError):
+            # Not a (status, dataset) pair, validate_status() decides what
+            #   the response will be
+            usr_status, ds = cast(Any, user_response), None
 
         # Check Status validity
         # Validate rsp_status and set rsp.Status accordingly
@@ -1152,7 +1167,12 @@ class ServiceClass:
         if not ctx.success or not self.assoc.is_established:
             return
 
-        usr_status, ds = cast(UserReturnType, user_response)
+        try:
+            usr_status, ds = cast(UserReturnType, user_response)
+        except (TypeError, ValueError):
+            # Not a (status, dataset) pair, validate_status() decides what
+            #   the response will be
+            usr_status, ds = cast(Any, user_response), None
 
         # Validate rsp_status and set rsp.Status accordingly
         rsp = self.validate_status(usr_status, rsp)
@@ -1309,7 +1329,12 @@ class ServiceClass:
         if not ctx.success or not self.assoc.is_established:
             return
 
-        usr_status, ds = cast(UserReturnType, user_response)
+        try:
+            usr_status, ds = cast(UserReturnType, user_response)
+        except (TypeError, ValueError):
+            # Not a (status, dataset) pair, validate_status() decides what
+            #   the response will be
+            usr_status, ds = cast(Any, user_response), None
 
         # Validate rsp_status and set rsp.Status accordingly
         rsp = self.validate_status(usr_status, rsp)
